@@ -11,7 +11,15 @@ corr  : the Lean model of MessageExtractor.extract_nodes + BabelMakoExtractor/Li
 oracle: no Lean.  Templates are rendered from a generated item tree; every planted call has a unique message;
         ground truth = (line of the unique literal in the rendered source, function, messages, the ## translator
         comment block ending on the line before the construct the call sits in).  Both extractors must report
-        every planted call exactly once at its line with its comments and nothing from decoys.
+        every planted call exactly once at its line with its comments and nothing from decoys.  The recorded
+        witnesses of known_findings.json and of the repaired defects are replayed first (witness_cases).
+        A mismatch is first established against this ground truth; only for naming its site the oracle also
+        carries a transcription of the *recorded* defective behaviour (recorded_comment_behaviour for the comment
+        window, rec_off for Python in tag attributes): a mismatch counts as one of the recorded findings only if it
+        is exactly what that behaviour produces, anything else gets a `...deviates-from-recorded-behaviour` site
+        and is reported as new.  Violations are shrunk on the item tree (shrink_case).
+replay: re-renders the recorded item tree, runs the oracle (holds iff the recorded site is no longer violated) and
+        the model/implementation comparison on the rendered template.
 """
 from __future__ import annotations
 
@@ -30,8 +38,10 @@ RULE = ("templates rendered from a random item tree: text / ## comments / <%doc>
         "nesting depth <= 3; calls _(m), gettext(m), ngettext(s, p, n) with unique messages at random places; "
         "translator-comment blocks (1-3 ## lines, configured tag) at distance 0/1/2 lines, separated by text or by a "
         "message-less construct, followed by untagged ## lines; LF/CRLF; str input and bytes in utf-8 / latin-1 / "
-        "cp1251 / koi8-r with option and/or coding comment, incl. comment and option naming different codecs (the comment wins) and the codec given as input_encoding only; a case is non-trivial when >= 1 planted call is present; distinct "
-        "= distinct rendered sources x flavour")
+        "cp1251 / koi8-r with `encoding` option and/or coding comment, comment and option naming different codecs "
+        "(the comment wins), or the codec given as `input_encoding` only; <%ns:def> with up to 4 arguments on "
+        "different lines and line breaks directly after '${' / before '}'; a case is non-trivial when >= 1 planted "
+        "call is present; distinct = distinct rendered sources x flavour")
 ASSUMPTIONS = [
     "the Python-level call finders (babel.messages.extract.extract_python, lingua.extractors.python) are oracles: "
     "the model receives their answers for the strings it hands over; their own correctness is outside the property",
@@ -40,8 +50,11 @@ ASSUMPTIONS = [
     "planted calls keep the function name, the opening parenthesis and the first message literal on one line, so "
     "'the line on which the call is written' is unambiguous",
     "generated Python is syntactically valid (mako's lexer parses every fragment while building the tree)",
-    "in the oracle stream a translator comment is a run of consecutive ## lines; <%doc> blocks never start with a "
-    "configured tag and never follow a ## line directly (the property speaks of ## lines)",
+    "in the oracle stream a translator comment is a run of ## lines of one scope with at most blank lines in between "
+    "(the intent documented in extract_nodes); <%doc> blocks never start with a configured tag and never follow a "
+    "## line directly (the property speaks of ## lines)",
+    "the codec hand-off to Babel (which options reach extract_python) is not part of the Lean model: the "
+    "correspondence feeds the finder with the options the implementation was seen to pass, the oracle judges the effect",
 ]
 TRUSTED_EXTRA = [
     "C20: serialisation of the real parse tree (kind, lineno, the code field extract_nodes reads for that kind, "
